@@ -1735,11 +1735,6 @@ package ucfg
 //@ rvwrites nothing
 //@ ensures [storage !unproved] ok ==> rvRootOf(r) == rvRootOf(v)
 
-//@ func pointerize :: t, base, v -> r
-//@ props C07
-//@ sweep
-//@ rvwrites nothing
-
 //@ func messageMeta :: message, meta -> r
 //@ props C14 C07
 //@ nonil
@@ -1792,6 +1787,7 @@ package ucfg
 
 //@ iface value.typ :: self, opts -> t, err
 //@ pure
+//@ ensures err == nil ==> t.gotype == gotypeOf(self)
 
 //@ func raiseDuplicateKey :: cfg, name -> result
 //@ props C14 C07
@@ -2078,3 +2074,33 @@ package ucfg
 //@ requires cfg != nil && opts.opts != nil
 //@ rvwrites rvRootOf(to), pointeeStore()
 //@ ensures [absent_untouched] result == nil && old(absent(cfg, name, opts.opts)) && rvRootOf(to) != pointeeStore() && (rtKind(fieldType) == 22 || (rtKind(fieldType) != 25 && !hasInit(fieldType))) ==> rvver(rvRootOf(to)) == old(rvver(rvRootOf(to)))
+
+// ---------------------------------------------------------------- C03 / C06: dispatch of typed unpacking
+//@ ghost func gotypeOf(v value) reflect.Type
+
+// dispatch of typed unpacking: which conversion kernel produces the value for which kind of target
+//@ func doReifyPrimitive :: opts, val, baseType -> r, err
+//@ props C03 C06 C07
+//@ sweep
+//@ requires opts.opts != nil && val != nil && baseType != nil
+//@ modifies *
+//@ ensures [int_kinds] err == nil && baseType != old(tDuration) && baseType != old(tRegexp) && 2 <= rtKind(baseType) && rtKind(baseType) <= 6 && gotypeOf(val) != baseType ==> rvType(r) == baseType && rvInt(r) == toIntVal(val)
+//@ ensures [uint_kinds] err == nil && baseType != old(tDuration) && baseType != old(tRegexp) && 7 <= rtKind(baseType) && rtKind(baseType) <= 11 && gotypeOf(val) != baseType ==> rvType(r) == baseType && rvUint(r) == toUintVal(val)
+//@ ensures [float_kinds] err == nil && baseType != old(tDuration) && baseType != old(tRegexp) && (rtKind(baseType) == 13 || rtKind(baseType) == 14) && gotypeOf(val) != baseType ==> rvType(r) == baseType && same(rvFloat(r), toFloatVal(val))
+//@ ensures [bool_kind] err == nil && baseType != old(tDuration) && baseType != old(tRegexp) && rtKind(baseType) == 1 && gotypeOf(val) != baseType ==> rvType(r) == baseType && rvBool(r) == toBoolVal(val)
+//@ ensures [string_kind] err == nil && rtKind(baseType) == 24 && gotypeOf(val) != baseType ==> rvAny(r) == toAny(toStringVal(val))
+
+// pointerize: the value comes back with exactly the target's type (as many pointer levels as the target has)
+//@ func pointerize :: t, base, v -> r
+//@ props C06 C07
+//@ sweep
+//@ rvwrites nothing
+//@ ensures [same_type] t == base ==> r == v
+//@ ensures [target_type] t != base && rtKind(t) != 20 ==> rvType(r) == t
+
+// reifyPrimitive: a configured (non-null) value comes back with the type of the target, pointers included
+//@ func reifyPrimitive :: opts, val, t, baseType -> r, err
+//@ props C06 C07
+//@ sweep
+//@ modifies *
+//@ ensures [target_type] err == nil && val != nil && typeof(val) != *cfgNil && t != baseType && rtKind(t) != 20 ==> rvType(r) == t
